@@ -214,18 +214,32 @@ type Sim interface {
 
 var sims = map[string]Sim{}
 var propSim = map[string]string{}
+var propSims = map[string][]string{}
 
-// Register makes a simulation available to the runner.
+// Register makes a simulation available to the runner. A property may be
+// served by several simulations (C10: transaction store and address manager);
+// the master runs all of them and merges what they report.
 func Register(s Sim) {
 	sims[s.Name()] = s
 	for _, p := range s.Props() {
 		if _, dup := propSim[p]; !dup {
 			propSim[p] = s.Name()
 		}
+		propSims[p] = append(propSims[p], s.Name())
+		sort.Strings(propSims[p])
 	}
 }
 
-func SimFor(prop string) Sim   { return sims[propSim[prop]] }
+func SimFor(prop string) Sim { return sims[propSim[prop]] }
+
+// SimsFor returns every simulation registered for a property, by name.
+func SimsFor(prop string) []Sim {
+	var out []Sim
+	for _, n := range propSims[prop] {
+		out = append(out, sims[n])
+	}
+	return out
+}
 func SimByName(n string) Sim   { return sims[n] }
 func RegisteredProps() []string {
 	var out []string
